@@ -45,7 +45,9 @@ def run_shard(spec, acc):
     openers = [None, gen.OPENERS['two_prs_same_base'],
                gen.OPENERS['stab_between_devs'], None,
                gen.OPENERS['dest_moves_while_open'],
-               gen.OPENERS['three_queued']]
+               gen.OPENERS['three_queued'], gen.OPENERS['backport'],
+               gen.OPENERS['backport'], gen.OPENERS['partial_merge'],
+               gen.OPENERS['admin_branches']]
     if spec['tier'] == 'quick':
         n_hist, jobs, cap = 9, 12, 600
     else:
